@@ -16,7 +16,9 @@ RULE = ("structural part: every symmetric 0/1 matrix on n<=4 atoms x every eleme
         "in standard valences with hydrogens filled in, every C4-C5 (thorough C6) hydrocarbon skeleton (cumulated / conjugated / cyclic), "
         "plus 28 listed aromatic / cumulated / hypervalent systems, each in all atom "
         "orders (<=5 atoms quick, <=6 thorough) or shifts + reversal + transpositions: every atom gets a standard valence, all charges "
-        "and unpaired electrons are zero, support equals connectivity.  distinct = (molecule, atom order) calls")
+        "and unpaired electrons are zero, support equals connectivity; the public path g.to_rdmol(generate_bond_orders=True) on the "
+        "listed molecules, hydrocarbons and a stride of the enumeration (MolGraph / StereoMolGraph, three identifier schemes, both "
+        "insertion orders): standard valences, no charges, no radicals, same bonds on the RDKit molecule.  distinct = (molecule, atom order) calls")
 ASSUMPTIONS = ["standard valences: H1 C4 N3 O2 F/Cl/Br/I 1 S{2,6} P{3,5}; the Kekule structure itself is not compared",
                "'all molecules' is cut at 3 (quick) / 4 (thorough) heavy atoms plus the list"]
 BUDGET = {"quick": 600, "thorough": 1800}
@@ -41,6 +43,8 @@ def items(tier, seed):
     names = sorted(M.listed())
     for nm in names:
         out.append({"part": "listed", "name": nm, "tier": tier})
+    for k in range(8):
+        out.append({"part": "to_rdmol", "k": k, "tier": tier})
     return out
 
 
@@ -101,10 +105,81 @@ def structural_check(els, A, out, item, tag):
     return BO, ch, un
 
 
+SCATTER = [17, 3, 250, 9, 1000, 42, 77, 5, 123, 64, 8, 31, 900, 12, 2, 555, 61, 7, 29, 404, 13, 88, 1, 36, 19, 321, 45, 6, 72, 99]
+
+
+def _to_rdmol(item, out):
+    """the public path g.to_rdmol(generate_bond_orders=True): the orders are written onto an RDKit molecule per graph bond, so the
+    rows of the bond-order matrix have to be matched with identifiers and RDKit indices.  Listed molecules, C4 (thorough C5)
+    hydrocarbons and the <=3 heavy atom enumeration (stride), as MolGraph and StereoMolGraph, identifiers 1..n, scattered and in
+    reversed insertion order: every RDKit atom gets a standard valence, no charge, no radical; RDKit bonds = graph bonds"""
+    import stereomolgraph as smg
+    from rdkit import Chem
+
+    tier, k = item["tier"], item["k"]
+    oc = out["outcomes"]
+    pool = [(nm, M.listed()[nm]) for nm in sorted(M.listed())]
+    pool += [(mol_id(m), m) for m in M.hydrocarbons(4 if tier == "quick" else 5)]
+    pool += [(mol_id(m), m) for m in M.enumerated(3)[:: 7 if tier == "quick" else 1]]
+    for name, (els, bo) in pool[k::8]:
+        n = len(els)
+        if n > len(SCATTER):
+            schemes = {"1..n": list(range(1, n + 1)), "shifted": [a + 1000 for a in range(n)]}
+        else:
+            schemes = {"1..n": list(range(1, n + 1)), "scattered": SCATTER[:n], "descending": list(range(n, 0, -1))}
+        for sname, ids in schemes.items():
+            for cls in (smg.MolGraph, smg.StereoMolGraph):
+                for rev in (False, True):
+                    g = cls()
+                    order = list(range(n))[::-1] if rev else list(range(n))
+                    for i in order:
+                        g.add_atom(ids[i], els[i])
+                    for (i, j) in (sorted(bo, reverse=True) if rev else sorted(bo)):
+                        g.add_bond(ids[i], ids[j])
+                    out["evals"] += 1
+                    out["distinct"] += 1
+                    oc["to_rdmol"] = oc.get("to_rdmol", 0) + 1
+
+                    def V(clause, what):
+                        out["viol"].append({"sig": f"C18/to_rdmol/{clause}", "input": f"{name}|{sname}|{cls.__name__}|{rev}",
+                                            "what": what + f" [{name}: {els} bonds {sorted(bo.items())}, identifiers {sname}"
+                                                           f"{', reversed insertion' if rev else ''}, {cls.__name__}]",
+                                            "item": item, "detail": None})
+                    try:
+                        with warnings.catch_warnings():
+                            warnings.simplefilter("ignore")
+                            mol = g.to_rdmol(generate_bond_orders=True)
+                    except Exception as e:
+                        V("raised:" + type(e).__name__, f"to_rdmol(generate_bond_orders=True) raised {e!r}")
+                        continue
+                    atoms = list(g.atoms)
+                    if mol.GetNumAtoms() != n or [a.GetSymbol() for a in mol.GetAtoms()] != [els[ids.index(a)] for a in atoms]:
+                        V("atoms", "RDKit atoms differ from the graph's atoms (in graph order)")
+                        continue
+                    rb = {frozenset((atoms[b.GetBeginAtomIdx()], atoms[b.GetEndAtomIdx()])): b.GetBondTypeAsDouble() for b in mol.GetBonds()}
+                    if set(rb) != {frozenset(b) for b in g.bonds}:
+                        V("bonds", "RDKit bonds differ from the graph's bonds")
+                        continue
+                    val = {a: 0.0 for a in atoms}
+                    for b, o in rb.items():
+                        for a in b:
+                            val[a] += o
+                    bad = [(a, els[ids.index(a)], val[a]) for a in atoms if val[a] not in M.STD_VALENCES[els[ids.index(a)]]]
+                    if bad:
+                        V("valence", f"atoms without a standard valence on the RDKit molecule: {bad[:4]}")
+                    if any(a.GetFormalCharge() for a in mol.GetAtoms()):
+                        V("charges", "formal charges on the RDKit molecule")
+                    if any(a.GetNumRadicalElectrons() for a in mol.GetAtoms()):
+                        V("radicals", "radical electrons on the RDKit molecule")
+    return out
+
+
 def run_item(item):
     out = {"evals": 0, "distinct": 0, "outcomes": {}, "viol": [], "samples": []}
     oc = out["outcomes"]
     tier = item["tier"]
+    if item["part"] == "to_rdmol":
+        return _to_rdmol(item, out)
     if item["part"] == "structural":
         n = item["n"]
         pairs = list(itertools.combinations(range(n), 2))
